@@ -193,6 +193,9 @@ let () =
              | "uploadtrunc" -> Some (TUploadTrunc (hb arg)) | "teardown" -> Some TClose
              | "download" -> Some (TDownload (hb arg))
              | "upload" -> Some (TUpload (hb arg, true))
+             (* sizes 0/0 are the end-of-upload marker: the handler then reads the modification time, which these two
+                kinds never send - a truncated message *)
+             | ("uploaddata" | "uploaddatac") when arg = "-" -> Some TMsgTrunc
              | "uploaddata" -> Some (TUploadData false) | "uploaddatac" -> Some (TUploadData true)
              | "uploaddone" -> Some TUploadDone
              | "uploadfail" -> Some (TUploadFailed (arg <> "-"))
